@@ -66,6 +66,11 @@ class IO:
             export_to_csv(tr, d / "tracks.csv", node_ids=subset)
         elif fmt == "csv_names":
             export_to_csv(tr, d / "tracks.csv", node_ids=subset, use_display_names=True)
+        elif fmt == "csv_names_tif":
+            if tr.segmentation is not None:
+                export_to_csv(tr, d / "tracks.csv", node_ids=subset, use_display_names=True, export_seg=True, seg_path=d / "seg.tif")
+            else:
+                export_to_csv(tr, d / "tracks.csv", node_ids=subset, use_display_names=True)
         elif fmt == "csv_tif":
             if tr.segmentation is not None:
                 export_to_csv(tr, d / "tracks.csv", node_ids=subset, export_seg=True, seg_path=d / "seg.tif")
@@ -182,6 +187,8 @@ class IO:
             g = sim.tracks.graph
             sim.count("io_subset_" + spec)
             nodes = sorted(g.nodes)
+            if spec == "none":
+                return set()  # the empty selection: zero rows, all-background segmentation
             if spec == "all":
                 out = set(nodes)
             elif spec == "leaves":
@@ -226,7 +233,7 @@ class IO:
         _, exc, seam = self._armed(sim, op, d, lambda dd: self._write(sim, fmt, dd, subset, op.get("overwrite", False)), "w")
         if seam == "twin_failed":
             return None
-        out = {"resolved": {"fmt": fmt, "subset": None if subset is None else sorted(subset)}, "tags": [fmt] + (["subset"] if subset else []), "io": None if (seam is None or not seam.fired) else list(seam.fired[:2])}
+        out = {"resolved": {"fmt": fmt, "subset": None if subset is None else sorted(subset)}, "tags": [fmt] + ([] if subset is None else ["subset"] if subset else ["subset", "empty_selection"]), "io": None if (seam is None or not seam.fired) else list(seam.fired[:2])}
         injected = isinstance(exc, InjectedOSError) or (exc is not None and seam.fired is not None and isinstance(exc, OSError))
         if exc is None:
             out["cls"] = "accepted"
@@ -248,6 +255,9 @@ class IO:
             sim.stat("C16.eval")
             sim.case(kind, fmt, bool(subset), None if not seam.fired else seam.fired[0], observe.shape_hash(tr))
         if out["cls"] == "crash":
+            if sim.active("C15") and subset is not None:
+                sim.violate("C15", "C15.raises", f"{kind} {fmt} of subset {sorted(subset)[:8]} raised {out['exc']}: {out.get('msg')}", op, out["tags"], out["exc"])
+                return out
             if sim.active("C14"):
                 chan = "internal" if fmt == "internal" else ("csv" if fmt.startswith("csv") else "geff")
                 sim.violate("C14", f"C14.{chan}.raises", f"{kind} {fmt} raised {out['exc']}: {out.get('msg')}", op, out["tags"], out["exc"])
@@ -530,7 +540,7 @@ class IO:
         tags = out["tags"]
         if fmt.startswith("csv"):
             df = pd.read_csv(d / "tracks.csv")
-            idc, pc = ("ID", "Parent ID") if fmt == "csv_names" else ("id", "parent_id")
+            idc, pc = ("ID", "Parent ID") if fmt.startswith("csv_names") else ("id", "parent_id")
             ids = [int(x) for x in df[idc]]
             if sorted(ids) != sorted(want):
                 sim.violate("C15", "C15.nodes", f"{fmt} subset {sorted(subset)} exported nodes {sorted(ids)}, expected selection+ancestors {sorted(want)}", op, tags)
@@ -539,7 +549,7 @@ class IO:
             if edges != want_edges:
                 sim.violate("C15", "C15.edges", f"{fmt} subset exported links {sorted(edges)}, expected {sorted(want_edges)}", op, tags)
                 return
-            if fmt == "csv_tif" and tr.segmentation is not None:
+            if fmt.endswith("_tif") and tr.segmentation is not None:
                 import tifffile
 
                 img = tifffile.imread(d / "seg.tif")
@@ -626,6 +636,8 @@ def _compare_tracks(a, b, chan: str, fmt: str, with_pos: bool = True) -> list:
             if fmt == "csv_names" and key == "score":
                 continue
             bkey = key
+            if key == a.features.lineage_key:
+                bkey = b.features.lineage_key  # importers use the standard name
             if feat["feature_type"] == "node":
                 for n in ga.nodes:
                     va, vb = a.get_node_attr(n, key), b.get_node_attr(n, bkey)
